@@ -480,6 +480,25 @@ def c17_empty_routes(rng):
     return out
 
 
+def c17_attach_during_slow_dial(rng):
+    """a destination that is being dialled (slow dial) with n envelopes waiting for it attaches itself under that very
+    name before the dial ends: AddClient returns, the traffic of the others goes on, what is sent afterwards reaches
+    the attached connection - whatever becomes of the dial"""
+    out = []
+    for n in (3, 16, 17, 24, 40, 70):
+        for end in ('ok', 'err', 'never'):
+            ids = Ids()
+            steps = [attach('a', 1), attach('b', 2), w(ids, 1, 'a', 'x', rep=n), Q,
+                     attach('x', 3), Q,
+                     w(ids, 1, 'a', 'b', rep=2), w(ids, 2, 'b', 'a', rep=2), Q,
+                     w(ids, 1, 'a', 'x', rep=2), Q, w(ids, 3, 'x', 'a'), Q]
+            if end != 'never':
+                steps += [dict(op='reldial', name='x'), Q, w(ids, 1, 'a', 'x'), w(ids, 1, 'a', 'b'), Q]
+            out.append(scen('C17', 'attach during a slow dial with %d waiting, dial ends %s' % (n, end), steps,
+                            dial={'x': 'slow' if end != 'err' else 'slowerr'}))
+    return out
+
+
 def c17_spoof(rng, count):
     out = []
     kinds = ['attached', 'unknown', 'dialable', 'empty', 'noheader']
@@ -688,11 +707,11 @@ def c17_held(rng, count):
 
 def generate_c17(tier, rng):
     if tier == 'quick':
-        return (c17_empty_routes(rng) + c17_spoof(rng, 120) + c17_roles(rng, 120) + c17_flood(rng) + c17_reattach(rng, 42) + c17_reattach_healthy(rng, 12) +
+        return (c17_empty_routes(rng) + c17_attach_during_slow_dial(rng) + c17_spoof(rng, 120) + c17_roles(rng, 120) + c17_flood(rng) + c17_reattach(rng, 42) + c17_reattach_healthy(rng, 12) +
                 c17_cancel(rng, 40) + c17_held(rng, 48))
     s = []
     for i in range(6):
-        s += c17_spoof(rng, 135) + c17_empty_routes(rng)
+        s += c17_spoof(rng, 135) + c17_empty_routes(rng) + c17_attach_during_slow_dial(rng)
     s += c17_roles(rng, 2100) + c17_flood(rng) + c17_reattach(rng, 600) + c17_reattach_healthy(rng, 240) + c17_held(rng, 720)
     for i in range(9):
         s += c17_cancel(rng, 1000)
